@@ -2613,7 +2613,9 @@ impl Sess {
             }
         }
         // a reorganisation detaches committed transactions which the pool takes back; submissions
-        // that spend a later input of such a transaction race with that re-admission
+        // that spend a later input of such a transaction race with that re-admission (they are sent
+        // by this thread right behind the blocks, while the pool service works on the tip change)
+        let mut late: Vec<TransactionView> = vec![];
         if depth > 0 {
             let old = self.n_tip();
             if let Some(fork) = self.tg.rc.ancestor_at(&old, tip_n - depth) {
@@ -2640,16 +2642,16 @@ impl Sess {
                     }
                     b = rec.parent;
                 }
-                for c in contested.iter().take(3) {
+                for c in contested.iter().take(4) {
                     let rate = self.min_fee_rate + 500 + self.xrng.below(2_000);
                     if let Some(t) = self.simple_tx(std::slice::from_ref(c), rate, 0, &[], 5) {
-                        txs.push(t);
+                        late.push(t);
                         r.c12.count("obs.storm.submissions_contesting_an_input_of_a_detached_transaction");
                     }
                 }
             }
         }
-        for t in &txs {
+        for t in txs.iter().chain(late.iter()) {
             self.known.insert(t.proposal_short_id(), t.clone());
         }
         // the blocks propose (and, for a reorg of some depth, may commit) a part of them
@@ -2680,6 +2682,16 @@ impl Sess {
                     .collect();
                 std::thread::sleep(Duration::from_micros(delay_us));
                 delivered = self.deliver(&blocks, r);
+                if delivered {
+                    for t in &late {
+                        let res = ctl0.submit_local_tx(t.clone());
+                        match res {
+                            Ok(x) => results.push((t.clone(), x.map(|_| ()).map_err(|e| e.to_string()))),
+                            Err(_) => channel_error = true,
+                        }
+                        std::thread::sleep(Duration::from_micros(150));
+                    }
+                }
                 for h in hs {
                     for (t, res) in h.join().unwrap_or_default() {
                         match res {
@@ -2740,6 +2752,11 @@ impl Sess {
     /// it), its maps must stay consistent - judged by the ordinary dump recomputation - and the
     /// answer must agree with the membership.
     fn op_submit_race(&mut self, r: &mut Reports) -> bool {
+        // (sessions with a tiny cycle limit only know single-group transactions: the builder plans
+        // its blocks by counting transactions)
+        if self.flavor == Flavor::SmallCycles {
+            return true;
+        }
         let Some(pre) = self.quiesce() else { return false };
         let tip_n = self.tg.rc.get(&self.n_tip()).number;
         let cells = self.chain_cells(&pre, tip_n);
